@@ -370,7 +370,7 @@ func (b *builder) writeFrag(fr *Frag) (FragTruth, error) {
 		switch o.Base {
 		case 0:
 			tf |= tfhdBaseIsMoof
-		case 1:
+		case 1, 3:
 			tf |= tfhdBase
 		case 2:
 		default:
@@ -391,7 +391,11 @@ func (b *builder) writeFrag(fr *Frag) (FragTruth, error) {
 		h := w.openFull("tfhd", 0, tf)
 		w.u32(tr.ID)
 		if tf&tfhdBase != 0 {
-			w.u64(uint64(moofStart))
+			if o.Base == 3 {
+				w.u64(uint64(moofStart) / 2) // some other absolute position: the data offsets count from there
+			} else {
+				w.u64(uint64(moofStart))
+			}
 		}
 		if tf&tfhdDescIdx != 0 {
 			w.u32(tr.Trex.DescIdx)
@@ -544,6 +548,9 @@ func (b *builder) writeFrag(fr *Frag) (FragTruth, error) {
 		base := uint64(moofStart)
 		if o.Base == 2 {
 			base = prevTrafEnd
+		}
+		if o.Base == 3 {
+			base = uint64(moofStart) / 2
 		}
 		for _, rp := range tp.runs {
 			if rp.offField >= 0 {
@@ -840,7 +847,10 @@ func Build(tracks []Track, lay FileLayout) (init []byte, segments [][]byte, trut
 			}
 			t := w.openFull("tfra", ver, 0)
 			w.u32(tracks[ti].ID)
-			w.u32(0) // length_size_of_{traf,trun,sample}_num all 0: one byte each
+			// length_size_of_traf_num / trun_num / sample_num (2 bits each, number of bytes minus 1): 0 unless the layout
+			// asks for wider fields
+			ls := uint32(lay.MfraLenSizes) & 0x3f
+			w.u32(ls)
 			w.u32(uint32(len(tfra[ti])))
 			for _, e := range tfra[ti] {
 				if ver == 1 {
@@ -853,9 +863,11 @@ func Build(tracks []Track, lay FileLayout) (init []byte, segments [][]byte, trut
 				if e.traf > 255 || e.trun > 255 {
 					return nil, nil, nil, fmt.Errorf("fragbuild: tfra traf/trun number does not fit one byte")
 				}
-				w.u8(uint8(e.traf))
-				w.u8(uint8(e.trun))
-				w.u8(uint8(e.smp))
+				for k, v := range []uint32{uint32(e.traf), uint32(e.trun), uint32(e.smp)} {
+					for n := int(ls>>uint(4-2*k)) & 3; n >= 0; n-- {
+						w.u8(uint8(v >> uint(8*n)))
+					}
+				}
 			}
 			w.close(t)
 		}
